@@ -145,7 +145,7 @@ CHECKS["C08"] = dict(
 CHECKS["C09"] = dict(
     level="exploration",
     technique="runtime monitoring: virtual-time trace monitor of the real Advertiser and Monitor fed scripted invalid/valid message sequences; invalid-counter, no-side-effect and continued-service oracles; race detector pass",
-    rule="exhaustive hop limit 0…255 × {RS, RA, NS, NA} single-message scenarios each followed by a valid RS; runs of k=1…12 consecutive invalid messages (retry budget is 5) in 6 mixes; seeded random sequences mixing valid RS/RA, invalid "
+    rule="exhaustive hop limit 0…255 × {RS, RA, NS, NA} × source {link-local, ::, global} single-message scenarios each followed by a valid RS; runs of k=1…12 consecutive invalid messages (retry budget is 5) in 6 mixes; seeded random sequences mixing valid RS/RA, invalid "
          "messages and ≤3 consecutive read time-outs; same for the monitor (part mon); non-trivial = ≥1 invalid message delivered; distinct = scenario id",
     exhaustive={"quick": True, "thorough": True},
     assumptions=VT,
@@ -192,7 +192,7 @@ CHECKS["C05"] = dict(
 CHECKS["C04"] = dict(
     level="exploration",
     technique="runtime monitoring: virtual-time trace monitor of 1–3 real Advertisers sharing one State/registry/API handler, forwarding flipped at quiescent points; epoch-valued expected-RA oracle on all seven RA paths; race detector pass",
-    rule="seeded scenarios: default_lifetime {0, auto, explicit} × 1–3 interfaces × initial forwarding × 1–6 flips (each at a quiescent point, on a random interface) interleaved with 1–5 triggers per epoch of the paths "
+    rule="readfault family: {auto, explicit} lifetime × 1/2/all failing forwarding reads after a flip to off × {solicited, periodic, peer RA, solicited+periodic} × 0–2 earlier generations × 3 error kinds; seeded scenarios: default_lifetime {0, auto, explicit} × 1–3 interfaces × initial forwarding × 1–6 flips (each at a quiescent point, on a random interface) interleaved with 1–5 triggers per epoch of the paths "
          "{solicited, periodic, consistency check via a peer RA, metrics scrape, debug API}, plus the initial and final RA; each generated RA is compared with the expected RA for the epoch's forwarding value, and per epoch the "
          "log lines, forwarding reads and misconfiguration sample are counted; non-trivial = every scenario (≥1 flip); distinct = scenario id (seeded)",
     assumptions=VT + ["flips happen only when every goroutine is durably blocked, so each RA generation falls in exactly one epoch"],
